@@ -118,6 +118,9 @@ GENERATORS = [
     ('Gen_Table.v', 'gen_table.py', ['src/lib/P11Objects.cpp', 'src/lib/P11Attributes.h', 'src/lib/P11Attributes.cpp', 'src/lib/P11Objects.h']),
     ('Gen_Entry.v', 'gen_entry.py', ['src/lib/SoftHSM.cpp', 'src/lib/SoftHSM.h', 'src/lib/access.h']),
     ('Gen_Ops.v', 'gen_entry.py ops', ['src/lib/SoftHSM.cpp', 'src/lib/SoftHSM.h']),
+    ('Gen_Keys.v', 'gen_entry.py keys', ['src/lib/SoftHSM.cpp', 'src/lib/SoftHSM.h']),
+    # proof files KG_<f>.v for Gen_Keys.v (statements fixed in the script; only the cut point is read from Gen_Keys.v) and their index
+    ('KG_index.v', 'gen_kgproofs.py', ['src/lib/SoftHSM.cpp', 'src/lib/SoftHSM.h']),
     ('Gen_Token.v', 'gen_token.py', ['src/lib/session_mgr/SessionManager.cpp', 'src/lib/slot_mgr/Token.cpp', 'src/lib/session_mgr/SessionManager.h', 'src/lib/slot_mgr/Token.h']),
     ('Gen_Pure.v', 'gen_pure.py', ['src/lib/access.cpp', 'src/lib/session_mgr/Session.cpp', 'src/lib/P11Attributes.cpp', 'src/lib/P11Attributes.h',
                                    'src/lib/session_mgr/Session.h', 'src/lib/access.h']),
@@ -138,6 +141,8 @@ def translate(build, only=None):
                                                              os.path.join(ROOT, 'translator', 'shallow.py'), os.path.join(build, 'config.h')]
             if outn not in ('Gen_Const.v', 'Gen_Parity.v'):
                 deps.append(os.path.join(GEN, 'Gen_Const.v'))
+            if outn == 'KG_index.v':
+                deps += [os.path.join(GEN, 'Gen_Keys.v'), os.path.join(ROOT, 'translator', 'gen_entry.py')]
             key = file_hash(deps)
             keyf = os.path.join(CACHE, 'gen-' + outn + '.key')
             if os.path.exists(outp) and os.path.exists(keyf) and open(keyf).read() == key:
